@@ -116,6 +116,11 @@ fn main() {
         std::process::exit(2);
     }
 
+    if let Err(e) = mon::guard_self_check() {
+        eprintln!("HARNESS-ERROR: guard allocator self-check failed: {}", e);
+        std::process::exit(2);
+    }
+
     let mut ctx = Ctx::new(&prop, tier, seed);
     ctx.replay = replay;
 
